@@ -53,6 +53,8 @@ ASSUMPTIONS = [
 
 PROBES = ["add_array", "iadd_array", "mul_array", "div_array", "sub_array", "neg_setter",
           "neg_factor", "oversub", "sub_ok", "neg_setter_tail", "oversub_tail",
+          # array operands that leave no bin negative (only the switch can refuse them), in other spellings
+          "sub_array_small", "isub_array_small", "sub_list_small", "add_list", "radd_array", "rsub_like",
           # refused with the switch on or off - they exercise the raising paths of the operators:
           "sub_incompatible", "sub_other_ndim", "add_incompatible", "isub_incompatible", "mul_hist", "div_hist"]
 ALWAYS_REFUSED = {"sub_incompatible", "sub_other_ndim", "add_incompatible", "isub_incompatible", "mul_hist", "div_hist"}
@@ -219,6 +221,21 @@ class Interp:
             fn = lambda: h / (arr * 2.0)  # noqa: E731
         elif kind == "sub_array":
             fn = lambda: h - arr * 10  # noqa: E731
+        elif kind == "sub_array_small":
+            fn = lambda: h - arr  # noqa: E731  (every bin holds at least 1)
+        elif kind == "isub_array_small":
+            def fn():
+                c = h.copy()
+                c -= arr
+                return c
+        elif kind == "sub_list_small":
+            fn = lambda: h - arr.tolist()  # noqa: E731
+        elif kind == "add_list":
+            fn = lambda: h + arr.tolist()  # noqa: E731
+        elif kind == "radd_array":
+            fn = lambda: arr.tolist() + h  # noqa: E731  (reflected operator, list on the left)
+        elif kind == "rsub_like":
+            fn = lambda: h - np.zeros(shape)  # noqa: E731  (subtracting nothing is still array arithmetic)
         elif kind == "neg_setter":
             def fn():
                 c = h.copy()
